@@ -627,7 +627,8 @@ class Session:
         """Known-finding classifier: the method is bicubic AND the 4x4 stencil of the query's true cell is not contained
         in the selected sub-grid.  Selected = the sub-grid that has to serve the query; where inclusion is a don't-care
         (several acceptable sub-grids) the one in whose node block the trace shows most of the node reads (a stencil that
-        leaves the block reads part of its nodes from the neighbouring block), otherwise all of them."""
+        leaves the block reads part of its nodes from the neighbouring block); when no node read exists (the call failed
+        before its first read) any of the acceptable sub-grids.  With a decisive query there is exactly one candidate."""
         if method != 'bicubic':
             return False
         subs = self.model['subgrids']
